@@ -495,6 +495,14 @@ func c18Processed(c *Check, P string, fn *ssa.Function, key string, isKeyGet fun
 	after := ReachAfter(pub, nil)
 	for i, r := range Returns(fn) {
 		if !after[r] {
+			// before the reply was handed to the publisher the only way out is a failure (⇒ Nack, the command comes again)
+			okFail := !RetNil(r, 0)
+			for _, v := range RetOrigins(r, 0) {
+				if !ProvablyNonNil(v, func(x ssa.Value) bool { return KnownNonNilAt(fn, r, x) }) {
+					okFail = false
+				}
+			}
+			c.Report(okFail, P+".O2", "NO-SETTLE-WITHOUT-REPLY", fn, r.Pos(), fmt.Sprintf("return#%d (before the reply is published)", i), "a return that is reached without the reply having been handed to the publisher carries a non-nil error: the command is never acked without a reply")
 			continue
 		}
 		k := fmt.Sprintf("return#%d", i)
